@@ -21,7 +21,7 @@ type HookFn func(st *State, args []Value) Value
 
 type Stats struct {
 	Paths, PathsDone, PathsInfeasible, PathsBound, PathsUnsupported, PathsPanicked int
-	Instrs, Forks, Queries, UnknownBranch, FallbackProved                        int
+	Instrs, Forks, Queries, UnknownBranch, FallbackProved                          int
 }
 
 // Program is the loaded, built SSA program shared by all engines.
@@ -38,54 +38,54 @@ type Program struct {
 
 // Engine is one symbolic execution worker.
 type Engine struct {
-	P            *Program
-	Solver       *Solver
-	SolverName   string
-	TimeoutMs    int
-	IntMode      bool
-	FP32As       int
-	FP64As       int
-	Hooks        map[string]HookFn
-	Intrinsics   map[string]HookFn
-	Redirect     map[string]*ssa.Function
-	AllowInline  map[string]bool
-	InlinePkgs   map[string]bool
-	MaxUnroll    int
-	MaxConcreteIter int
-	MaxDecisions int
-	MaxDepth     int
-	MaxSteps     int
-	MaxPaths     int
-	EagerAssume  bool
-	OpenFindings map[string]bool
+	P                *Program
+	Solver           *Solver
+	SolverName       string
+	TimeoutMs        int
+	IntMode          bool
+	FP32As           int
+	FP64As           int
+	Hooks            map[string]HookFn
+	Intrinsics       map[string]HookFn
+	Redirect         map[string]*ssa.Function
+	AllowInline      map[string]bool
+	InlinePkgs       map[string]bool
+	MaxUnroll        int
+	MaxConcreteIter  int
+	MaxDecisions     int
+	MaxDepth         int
+	MaxSteps         int
+	MaxPaths         int
+	EagerAssume      bool
+	OpenFindings     map[string]bool
 	AllFindingModels bool
 
-	baseMem  map[*Object]Value
-	globals  map[*ssa.Global]*Object
-	objCtr   int
-	work     [][]bool
-	Stats    Stats
-	asserts  map[string]*AssertRec
-	Violations []*Violation
-	seenFinding map[string]bool
-	seenViol  map[string]bool
-	Inconclusive []string
-	encoded  map[string]bool
-	used     map[string]bool
-	opaque   map[string]int
-	EndReasons map[string]int
-	Reached  map[string]int
-	rtErrType types.Type
-	eqHook   func(st *State, a, b Value) (*Term, bool)
-	zeroHooks []func(t types.Type) (Value, bool)
-	Trace    bool
-	NoErrFork bool // opaque results of type error are a single opaque value (no nil/non-nil fork)
-	Observations []string
-	Fallbacks []string
-	fb       map[string]*Solver
-	predDeclared map[string]bool
-	Deadline time.Time
-	initPhase bool
+	baseMem        map[*Object]Value
+	globals        map[*ssa.Global]*Object
+	objCtr         int
+	work           [][]bool
+	Stats          Stats
+	asserts        map[string]*AssertRec
+	Violations     []*Violation
+	seenFinding    map[string]bool
+	seenViol       map[string]bool
+	Inconclusive   []string
+	encoded        map[string]bool
+	used           map[string]bool
+	opaque         map[string]int
+	EndReasons     map[string]int
+	Reached        map[string]int
+	rtErrType      types.Type
+	eqHook         func(st *State, a, b Value) (*Term, bool)
+	zeroHooks      []func(t types.Type) (Value, bool)
+	Trace          bool
+	NoErrFork      bool // opaque results of type error are a single opaque value (no nil/non-nil fork)
+	Observations   []string
+	Fallbacks      []string
+	fb             map[string]*Solver
+	predDeclared   map[string]bool
+	Deadline       time.Time
+	initPhase      bool
 	initFileFilter map[string][]string
 }
 
@@ -177,7 +177,7 @@ func NewEngine(p *Program, solver string, timeoutMs int) (*Engine, error) {
 		asserts: map[string]*AssertRec{}, seenFinding: map[string]bool{}, seenViol: map[string]bool{},
 		encoded: map[string]bool{}, used: map[string]bool{}, opaque: map[string]int{},
 		EndReasons: map[string]int{}, Reached: map[string]int{}, predDeclared: map[string]bool{},
-		IntMode: true,
+		IntMode:   true,
 		Fallbacks: []string{"cvc5", "z3-new", "z3"},
 	}
 	s, err := NewSolver(solver, timeoutMs)
@@ -822,6 +822,20 @@ func (e *Engine) Explore(entry *ssa.Function, args []Value) {
 		}
 		if e.Trace {
 			fmt.Fprintf(os.Stderr, "path %d %v => %s %s\n", e.Stats.Paths, prefix, res.Reason, res.Detail)
+			// the library calls that were not interpreted on this path (what a divergence usually comes from)
+			seen := map[string]int{}
+			var order []string
+			for _, ev := range st.events {
+				if strings.HasPrefix(ev.Tag, "opaque:") {
+					if seen[ev.Tag] == 0 {
+						order = append(order, ev.Tag)
+					}
+					seen[ev.Tag]++
+				}
+			}
+			for _, t := range order {
+				fmt.Fprintf(os.Stderr, "    %s x%d\n", t, seen[t])
+			}
 		}
 	}
 }
